@@ -31,6 +31,7 @@ to turn it on for a production system.
 
 
 import logging
+import re
 logger = logging.getLogger('spyne.protocol.xml')
 logger_invalid = logging.getLogger('spyne.protocol.xml.invalid')
 
@@ -118,6 +119,20 @@ def _cleanup_namespaces(elt, nsmap):
                                           keep_ns_prefixes=list(top_nsmap))
     else:
         etree.cleanup_namespaces(elt)
+
+
+# what the Char production of XML 1.0 leaves out: lxml refuses text with these
+_RE_NOT_XML_CHAR = re.compile(u'[\x00-\x08\x0b\x0c\x0e-\x1f\ud800-\udfff\ufffe\uffff]')
+
+
+def _xml_text(s):
+    """The text of a fault as an xml document can carry it. Faults quote
+    request data; a request can hold any character in the protocols that are
+    not xml."""
+
+    if isinstance(s, text_type):
+        return _RE_NOT_XML_CHAR.sub(u'\ufffd', s)
+    return s
 
 
 class SchemaValidationError(Fault):
@@ -996,8 +1011,8 @@ class XmlDocument(SubXmlBase):
     def fault_to_parent(self, ctx, cls, inst, parent, ns, *args, **kwargs):
         subelts = [
             E("faultcode", '%s:%s' % (self.soap_env, inst.faultcode)),
-            E("faultstring", inst.faultstring),
-            E("faultactor", inst.faultactor or ""),
+            E("faultstring", _xml_text(inst.faultstring)),
+            E("faultactor", _xml_text(inst.faultactor or "")),
         ]
 
         return self._fault_to_parent_impl(ctx, cls, inst, parent, ns, subelts)
